@@ -124,6 +124,8 @@ def run(repo, chk):
                    f"the rollback journal `{journal}` of {fi.qual} is appended to only after the {res} acquire it records" if ok else detail)
 
     # ---- R05.2
+    from .shared import refused_exit_obligations
+    refused_exit_obligations(repo, chk, "R05.2")
     for acq_q, rel_q, why in PAIRS:
         a, r = repo.func(acq_q), repo.func(rel_q)
         wanted, loops = {}, {}
